@@ -13,8 +13,8 @@ var sizeGen = rapid.SampledFrom([]int{0, 1, 20, 100, 300})
 func genCfg(t *rapid.T) sim.Config {
 	return sim.Config{
 		Soft:      rapid.Bool().Draw(t, "soft"),
-		SplitSize: rapid.SampledFrom([]int{0, 5, 64, -1}).Draw(t, "split"),
-		WriterBuf: rapid.SampledFrom([]int{0, 1, 40}).Draw(t, "wbuf"),
+		SplitSize: rapid.SampledFrom([]int{0, 5, 64, 5, 64, -1}).Draw(t, "split"),
+		WriterBuf: rapid.SampledFrom([]int{0, 1, 40, 1}).Draw(t, "wbuf"),
 	}
 }
 
